@@ -104,6 +104,7 @@ fn run(args: &[String]) -> ! {
     (prop.run)(&ctx, &mut rep);
 
     if let Some(out) = child_out {
+        evidence::absorb_unreproduced(&mut rep);
         let j = rep.to_child_json();
         if std::fs::write(&out, j.to_string_compact()).is_err() {
             monitor::machinery_fail("child cannot write its report");
